@@ -607,6 +607,7 @@ func c15Exec(scAny any, c *simcheck.Ctx) *simcheck.Violation {
 		return simcheck.V(simcheck.EngineError, "snapshot: %v", err)
 	}
 	defer os.RemoveAll(snap.dir)
+	keptProj := h.lastProj
 	for idx, cr := range list {
 		if sc.Only != nil && *sc.Only != idx {
 			continue
@@ -637,7 +638,24 @@ func c15Exec(scAny any, c *simcheck.Ctx) *simcheck.Violation {
 		c.St.Faults[kind]++
 		what := fmt.Sprintf("record %s corrupted (%s at offset %d)", cr.File, kind, cr.Off)
 		rerunRec := bytes.Contains(recs[cr.File], []byte(`"rerun":true`))
-		for variant, preferIndex := range []bool{false, true, false} {
+		kept := keptProj // the project the last intact build left loaded (watch mode, the REPL)
+		for variant, preferIndex := range []bool{false, true, false, false} {
+			// variant 3: the record is damaged while a process holds the project loaded; that
+			// process reloads and builds (a tenth of the corruptions)
+			reload := variant == 3
+			if reload && (kept == nil || idx%10 != 3) {
+				continue
+			}
+			if reload {
+				if err := h.restore(snap); err != nil {
+					return simcheck.V(simcheck.EngineError, "restore: %v", err)
+				}
+				if err := os.WriteFile(filepath.Join(h.w.root, ".dawn", "build", cr.File), data, 0644); err != nil {
+					return simcheck.V(simcheck.EngineError, "write: %v", err)
+				}
+				h.lastProj = kept
+				c.St.Count("reloads_of_a_loaded_project_over_a_damaged_record", 1)
+			}
 			if preferIndex && cr.File != "index.json" && idx%4 != 0 {
 				continue
 			}
@@ -657,6 +675,7 @@ func c15Exec(scAny any, c *simcheck.Ctx) *simcheck.Violation {
 			}
 			op := *final
 			op.Index = preferIndex
+			op.Reload = reload
 			pc := h.pc
 			pc.WatchdogS = 25
 			if idx%3 == 1 {
